@@ -312,6 +312,10 @@ pub fn slice_frame<'a>(
     match entry {
         "eth" => SlicedPacket::from_ethernet(frame),
         "sll" => SlicedPacket::from_linux_sll(frame),
+        e if e.starts_with("et:") => {
+            let t = u16::from_str_radix(&e[3..], 16).unwrap_or(0);
+            SlicedPacket::from_ether_type(EtherType(t), frame)
+        }
         _ => SlicedPacket::from_ip(frame),
     }
 }
